@@ -108,6 +108,15 @@ int main(int argc, char** argv) {
         std::unique_ptr<RFKickMap> stat(make_static(p, in, out2));
         const double syncphase = p.linear ? 0.0 : (double)(float)std::asin((float)((meshaxis_t)p.V0 / (meshaxis_t)p.V));
         std::unique_ptr<OpenRF> ref(make_open(p, in, out2));
+        // one case in five: another machine's phase space and RF system (other length and energy scales) is set up and used in the same process
+        // after this case's maps were built - what a map does depends on its own grids and arguments only
+        if (c % 5 == 2) {
+            Par p2 = p; p2.pscale = p.pscale * r.uni(2.5, 6); p2.qscale = p.qscale * r.uni(0.2, 0.6); p2.n = (p.n > 200) ? 32 : p.n;
+            vh::set_grid(p2.n, 1);
+            { auto in2 = grid(p2), o2 = grid(p2); std::unique_ptr<RFKickMap> s2(make_static(p2, in2, o2)); std::unique_ptr<DynamicRFKickMap> d2(make_dyn(p2, in2, o2)); d2->apply(); s2->apply(); }
+            vh::set_grid(p.n, 1);
+            M.ev("cases_with_another_machine_set_up_in_between");
+        }
         std::vector<uint64_t> outhash;           // the grid each step produced (the input grid never changes)
         std::vector<std::vector<float>> forces;
         std::vector<std::array<meshaxis_t, 2>> recorded;
